@@ -467,6 +467,16 @@ pub fn seeds() -> Vec<(String, Vec<u8>)> {
             }
         }
     }
+    // many tiny CPC sketches (lg_k 4..=5): window-only images, every window offset up to the maximum
+    for i in 0..40u64 {
+        let lg_k = 4 + (i % 2) as u8;
+        let mut s = CpcSketch::new(lg_k);
+        let n = 8u64 << (i / 2);
+        for _ in 0..n.min(1 << 22) {
+            s.update(sm.next());
+        }
+        v.push((format!("cpc/tiny/lg{lg_k}/n{n}/{i}"), s.serialize()));
+    }
     // t-digest
     for &n in &[0u32, 1, 2, 50, 3000] {
         let mut t = TDigestMut::new(100);
@@ -554,6 +564,22 @@ pub fn catalogue(seed_img: &[u8], out: &mut Vec<Vec<u8>>) {
                 }
                 let mut b = seed_img.to_vec();
                 b[off..off + w].copy_from_slice(&cand.to_le_bytes()[..w]);
+                if b != seed_img {
+                    out.push(b);
+                }
+            }
+        }
+    }
+    // small images: every value 0..=1200 in every aligned 4-byte field of the first 24 bytes (count fields whose
+    // valid range is a narrow band that no boundary value hits, e.g. a CPC coupon count near an offset threshold)
+    if n <= 96 {
+        for off in (0..n.min(24)).step_by(4) {
+            if off + 4 > n {
+                break;
+            }
+            for v in 0u32..=1200 {
+                let mut b = seed_img.to_vec();
+                b[off..off + 4].copy_from_slice(&v.to_le_bytes());
                 if b != seed_img {
                     out.push(b);
                 }
@@ -969,7 +995,7 @@ fn catalogue_sub(ctx: &Ctx) -> SubReport {
     // dedupe
     let mut seen = BTreeSet::new();
     inputs.retain(|i| seen.insert(crate::kit::fnv64(i) ^ (i.len() as u64) << 48));
-    let mut rep = engine(ctx, "catalogue", inputs, "deterministic catalogue over ~400 seed images (every family, variant and mode, crate-written and spec-encoded): every aligned 1/2/4/8-byte field position of the first 48 bytes x 18 boundary values + 6 length-relative values, truncation at every offset (images <= 4 KB), extension by 1..16 bytes, every single-bit flip of the first 48 bytes; each input goes through 20 entry points and, when accepted, accessors / updates / merges / re-serialization; run in the release and the debug-assertions build. non-trivial = gets past the family / version / preamble checks of some entry point; distinct by content");
+    let mut rep = engine(ctx, "catalogue", inputs, "deterministic catalogue over ~400 seed images (every family, variant and mode, crate-written and spec-encoded): every aligned 1/2/4/8-byte field position of the first 48 bytes x 18 boundary values + 6 length-relative values, every value 0..=1200 in the 4-byte fields of the first 24 bytes of images up to 96 bytes, truncation at every offset (images <= 4 KB), extension by 1..16 bytes, every single-bit flip of the first 48 bytes; each input goes through 20 entry points and, when accepted, accessors / updates / merges / re-serialization; run in the release and the debug-assertions build. non-trivial = gets past the family / version / preamble checks of some entry point; distinct by content");
     rep.extra.insert("seed_images".into(), json!(sd.len()));
     rep
 }
